@@ -234,8 +234,8 @@ pub fn execute(plan: CheckPlan) -> i32 {
         ("allocation_refused", "alloc_fail"),
         ("preflight_refused", "preflight_fail"),
         ("call_refused", "call_refused"),
-        ("depth_trip", "depth_trips"),
-        ("recursion_trip", "rec_trips"),
+        ("depth_trip", "depth_due"),
+        ("recursion_trip", "rec_due"),
         ("timeout_due", "timeouts_due"),
         ("permission_refused", "perm_refused"),
         ("write_error", "write_err"),
